@@ -243,7 +243,9 @@ def main(ctx):
     # repeated dohist() calls with changing binning / limits on ONE Binner object:
     # the result of the last call must be what the reference gives for that call alone
     HOPS = (("binsize", 1.0, None, None), ("binsize", 0.5, 0.5, None), ("binsize", 1.0, None, 2.0),
-            ("nbin", 3, None, None), ("nbin", 2, 1.0, 3.7), ("binsize", 0.3, -1.0, 1.0), ("binsize", 2.5, 1.0, None))
+            ("nbin", 3, None, None), ("nbin", 2, 1.0, 3.7), ("binsize", 0.3, -1.0, 1.0), ("binsize", 2.5, 1.0, None),
+            # no datum within the limits: must raise, and the next call on the object must be right again
+            ("binsize", 1.0, 50.0, None))
     HDATA = {"d1": (0.0, 0.5, 1.0, 1.5, 2.0, 3.7, -1.0, 0.1), "d2": (2.0, 2.0, 1.0, 3.7, 0.30000000000000004),
              "d3": (1.0, 1.0, 1.0)}
 
@@ -304,7 +306,8 @@ def main(ctx):
     # up to 3 Binner objects over different data alive in one process, dohist calls interleaved: sort
     # indices, limits or scratch arrays kept at class/module level would leak from one Binner to another
     from mc.worlds import object_world
-    WOPS = [("binsize", 1.0, None, None), ("binsize", 0.5, 0.5, None), ("nbin", 3, None, None), ("nbin", 2, 1.0, 3.7)]
+    WOPS = [("binsize", 1.0, None, None), ("binsize", 0.5, 0.5, None), ("nbin", 3, None, None), ("nbin", 2, 1.0, 3.7),
+            ("binsize", 1.0, 50.0, None)]      # the last one must raise (no datum within the limits)
 
     def b_new(kind):
         dname, engine = kind.split("/")
@@ -326,7 +329,7 @@ def main(ctx):
     def b_check(kind, op, res):
         ref = reference(np.array(HDATA[kind.split("/")[0]]), *op)
         if ref is None:
-            return "no datum within the limits, but the call returned %r" % ([r.tolist() for r in res],)
+            return "no datum within the limits, but the call returned %r" % ([np.asarray(r).tolist() for r in res],)
         h, rev = res
         if h.shape != ref[0].shape or not np.array_equal(h, ref[0]):
             return "hist=%r, reference %r" % (h.tolist(), ref[0].tolist())
